@@ -91,6 +91,9 @@ func (s *Sorts) structSort(t types.Type, u *types.Struct) string {
 		f := u.Field(i)
 		fs := s.SortOf(f.Type())
 		sel := fmt.Sprintf("%s.%s", name, sanitize(f.Name()))
+		if f.Name() == "_" {
+			sel = fmt.Sprintf("%s._%d", name, i)
+		}
 		info.fields = append(info.fields, sel)
 		info.fsorts = append(info.fsorts, fs)
 		fl = append(fl, fmt.Sprintf("(%s %s)", sel, fs))
